@@ -1715,6 +1715,168 @@ static void run_blockmig(vrt_rng *r, int idx)
 }
 
 /* ======================================================================= */
+/* mode=joinmix (C06/C01): ABT_xstream_join with schedulers over several pools
+ * (an empty pool shared with other streams listed before the pools that hold
+ * the work), join overlapping a replacement of the main scheduler by a unit of
+ * that stream, and join / revive / idle / new work / join again */
+#define JMAXU 40
+static struct {
+    int ran[JMAXU];
+    int go;          /* atomic: the join has been issued */
+    ABT_pool pools[3];
+    int npools;
+    int replace_kind;
+    int replaced;    /* atomic */
+} g_jm;
+static int c_jmscen, c_jm_multi, c_jm_replace, c_jm_revive, c_jm_units;
+static void jm_unit(void *arg)
+{
+    int *p = (int *)arg;
+    if (vrt_hash64((uint64_t)(uintptr_t)arg) & 1)
+        ABT_thread_yield();
+    __atomic_fetch_add(p, 1, __ATOMIC_SEQ_CST);
+}
+static void jm_replacer(void *arg)
+{
+    /* wait until the join has been issued, then replace the main scheduler of
+     * the stream this unit runs on */
+    while (!__atomic_load_n(&g_jm.go, __ATOMIC_SEQ_CST))
+        ABT_thread_yield();
+    for (int i = 0; i < 20; i++)
+        ABT_thread_yield();
+    ABT_xstream xs;
+    VRT_ABT(ABT_self_get_xstream(&xs));
+    VRT_ABT(ABT_xstream_set_main_sched_basic(xs, (ABT_sched_predef)g_jm.replace_kind, g_jm.npools, g_jm.pools));
+    __atomic_store_n(&g_jm.replaced, 1, __ATOMIC_SEQ_CST);
+    __atomic_fetch_add((int *)arg, 1, __ATOMIC_SEQ_CST);
+}
+static void *jm_joiner(void *arg)
+{
+    ABT_xstream xs = (ABT_xstream)arg;
+    __atomic_store_n(&g_jm.go, 1, __ATOMIC_SEQ_CST);
+    vrt_call_begin("ABT_xstream_join (joinmix)");
+    VRT_ABT(ABT_xstream_join(xs));
+    vrt_call_end();
+    return NULL;
+}
+static void run_joinmix(vrt_rng *r, int idx)
+{
+    memset(&g_jm, 0, sizeof(g_jm));
+    VRT_ABT(ABT_init(0, NULL));
+    static const int pk[] = { ABT_POOL_FIFO, ABT_POOL_FIFO_WAIT, ABT_POOL_RANDWS };
+    static const int sp[] = { ABT_SCHED_BASIC, ABT_SCHED_PRIO, ABT_SCHED_DEFAULT, ABT_SCHED_BASIC_WAIT };
+    static const int rp[] = { ABT_SCHED_BASIC, ABT_SCHED_PRIO };
+    int kind = pk[vrt_range(r, 3)], sched = sp[vrt_range(r, 4)];
+    if (sched == ABT_SCHED_BASIC_WAIT)
+        kind = ABT_POOL_FIFO_WAIT;
+    int variant = (int)vrt_range(r, 3); /* 0 multi-pool join, 1 join overlapping replacement, 2 join-revive-join */
+    /* a pool shared by the victim and a helper stream, listed first, normally
+     * empty; then 1-2 private pools */
+    ABT_pool shared, priv[2];
+    VRT_ABT(ABT_pool_create_basic((ABT_pool_kind)kind, ABT_POOL_ACCESS_MPMC, ABT_FALSE, &shared));
+    int npriv = 1 + (int)vrt_range(r, 2);
+    for (int i = 0; i < npriv; i++)
+        VRT_ABT(ABT_pool_create_basic((ABT_pool_kind)kind, ABT_POOL_ACCESS_MPMC, ABT_FALSE, &priv[i]));
+    int shared_first = variant == 0 ? 1 : (int)vrt_range(r, 2);
+    g_jm.npools = 0;
+    if (shared_first)
+        g_jm.pools[g_jm.npools++] = shared;
+    for (int i = 0; i < npriv; i++)
+        g_jm.pools[g_jm.npools++] = priv[i];
+    if (!shared_first)
+        g_jm.pools[g_jm.npools++] = shared;
+    g_jm.replace_kind = rp[vrt_range(r, 2)];
+    ABT_xstream victim, helper;
+    ABT_pool hp[1] = { shared };
+    VRT_ABT(ABT_xstream_create_basic((ABT_sched_predef)sched, 1, hp, ABT_SCHED_CONFIG_NULL, &helper));
+    /* the work is queued before the victim exists so that the join finds it
+     * in the private pools */
+    int n = 1 + (int)vrt_range(r, JMAXU - 2), nrep = 0;
+    for (int i = 0; i < n; i++) {
+        ABT_pool p = priv[vrt_range(r, (uint64_t)npriv)];
+        if (vrt_range(r, 3) == 0)
+            VRT_ABT(ABT_task_create(p, jm_unit, &g_jm.ran[i], NULL));
+        else
+            VRT_ABT(ABT_thread_create(p, jm_unit, &g_jm.ran[i], ABT_THREAD_ATTR_NULL, NULL));
+    }
+    if (variant == 1) {
+        VRT_ABT(ABT_thread_create(priv[0], jm_replacer, &g_jm.ran[n], ABT_THREAD_ATTR_NULL, NULL));
+        nrep = 1;
+        vrt_count(c_jm_replace, 1);
+    } else if (variant == 0) {
+        vrt_count(c_jm_multi, 1);
+    }
+    VRT_ABT(ABT_xstream_create_basic((ABT_sched_predef)sched, g_jm.npools, g_jm.pools, ABT_SCHED_CONFIG_NULL, &victim));
+    if (vrt_range(r, 2))
+        vrt_sleep_us((unsigned)vrt_range(r, 200));
+    /* the join is issued by an external thread (the replacer waits for it) */
+    pthread_t jt;
+    pthread_create(&jt, NULL, jm_joiner, victim);
+    pthread_join(jt, NULL);
+    for (int i = 0; i < n + nrep; i++)
+        if (__atomic_load_n(&g_jm.ran[i], __ATOMIC_SEQ_CST) != 1) {
+            vrt_violation("joinmix:join-returned-before-completion",
+                          "ABT_xstream_join returned, but unit %d of %d in a pool only this stream schedules ran %d times "
+                          "(variant %d: %s; scheduler %s over %d pools, shared pool listed %s)", i, n + nrep, g_jm.ran[i],
+                          variant, variant == 0 ? "multi-pool" : variant == 1 ? "replacement after the join was issued"
+                                                                              : "join-revive-join",
+                          w_sched_name(sched), g_jm.npools, shared_first ? "first" : "last");
+            break;
+        }
+    if (vrt_num_violations())
+        return;
+    if (variant == 2) {
+        /* revive; stay idle for a while; new work; join again */
+        int rounds = 1 + (int)vrt_range(r, 3);
+        for (int k = 0; k < rounds && vrt_num_violations() == 0; k++) {
+            VRT_ABT(ABT_xstream_revive(victim));
+            vrt_sleep_us(500 + (unsigned)vrt_range(r, 3000));
+            ABT_xstream_state st;
+            VRT_ABT(ABT_xstream_get_state(victim, &st));
+            VRT_CHECK(st == ABT_XSTREAM_STATE_RUNNING, "joinmix:revived-stream-state",
+                      "a revived stream that found no work is in state %d (it must keep running until it is joined)", (int)st);
+            int m = 1 + (int)vrt_range(r, 8), base = n;
+            if (base + m > JMAXU)
+                m = JMAXU - base;
+            for (int i = 0; i < m; i++)
+                VRT_ABT(ABT_thread_create(priv[vrt_range(r, (uint64_t)npriv)], jm_unit, &g_jm.ran[base + i], ABT_THREAD_ATTR_NULL,
+                                          NULL));
+            n += m;
+            vrt_call_begin("ABT_xstream_join of a revived stream");
+            VRT_ABT(ABT_xstream_join(victim));
+            vrt_call_end();
+            for (int i = base; i < base + m; i++)
+                if (__atomic_load_n(&g_jm.ran[i], __ATOMIC_SEQ_CST) != 1) {
+                    vrt_violation("joinmix:revived-stream-lost-work",
+                                  "after join, revive, %d idle rounds: unit %d pushed to the revived stream's private pool ran "
+                                  "%d times when the next join returned", k, i, g_jm.ran[i]);
+                    break;
+                }
+            vrt_count(c_jm_revive, 1);
+        }
+    }
+    if (vrt_num_violations())
+        return;
+    VRT_ABT(ABT_xstream_free(&victim));
+    VRT_ABT(ABT_xstream_join(helper));
+    VRT_ABT(ABT_xstream_free(&helper));
+    VRT_ABT(ABT_pool_free(&shared));
+    for (int i = 0; i < npriv; i++)
+        VRT_ABT(ABT_pool_free(&priv[i]));
+    VRT_ABT(ABT_finalize());
+    if (idx < 3)
+        vrt_sample("joinmix scenario %d: victim stream with scheduler %s over %d %s pools (pool shared with a helper stream "
+                   "listed %s), %d units queued in its private pools, variant %s", idx, w_sched_name(sched), g_jm.npools,
+                   w_pool_kind_name(kind), shared_first ? "first" : "last", n,
+                   variant == 0 ? "join at once" : variant == 1 ? "main scheduler replaced by a unit after the join was issued"
+                                                                : "join, revive, idle, new work, join");
+    vrt_signature_add("jm:%s,%s,p%d,s%d,v%d", w_sched_name(sched), w_pool_kind_name(kind), g_jm.npools, shared_first, variant);
+    vrt_count(c_jm_units, (uint64_t)n);
+    vrt_count(c_jmscen, 1);
+    vrt_count(c_cases, 1);
+}
+
+/* ======================================================================= */
 /* mode=susp (C11 part A): a suspended ULT runs again only after a resume, and
  * exactly once per resume, even if the resume comes the moment BLOCKED is
  * observable */
@@ -1897,6 +2059,13 @@ static void dworker(void *arg);
 
 static void d_check_expect(dw_t *me)
 {
+    /* whoever runs is RUNNING, however it was switched to */
+    ABT_thread self;
+    ABT_thread_state own;
+    if (ABT_self_get_thread(&self) == ABT_SUCCESS && ABT_thread_get_state(self, &own) == ABT_SUCCESS &&
+        own != ABT_THREAD_STATE_RUNNING)
+        vrt_violation("direct:running-unit-state", "worker %d runs, but ABT_thread_get_state reports %d for it (last switch: %s)",
+                      me->id, (int)own, g_d.exp_valid ? do_name[g_d.exp_op] : "scheduler");
     if (!g_d.exp_valid)
         return;
     g_d.exp_valid = 0;
@@ -2304,9 +2473,11 @@ static void run_stackrace(vrt_rng *r, int idx)
 
 /* ======================================================================= */
 /* mode=life (C12): exit, cancel, revive, state machine */
-enum { LB_RETURN = 0, LB_YIELDS, LB_SELF_EXIT, LB_THREAD_EXIT, LB_UNTIL_CANCELLED, LB_BLOCK_THEN_RETURN, LB_NBEHAV };
+enum { LB_RETURN = 0, LB_YIELDS, LB_SELF_EXIT, LB_THREAD_EXIT, LB_UNTIL_CANCELLED, LB_BLOCK_THEN_RETURN, LB_SPIN_THEN_BLOCK,
+       LB_NBEHAV };
 enum { LC_NONE = 0, LC_BEFORE_START, LC_WHILE_RUNNING, LC_WHILE_BLOCKED };
-static const char *lb_name[] = { "return", "yields", "self_exit", "thread_exit", "until-cancelled", "block-then-return" };
+static const char *lb_name[] = { "return", "yields", "self_exit", "thread_exit", "until-cancelled", "block-then-return",
+                                 "spin-until-cancelled-then-block" };
 static const char *lc_name[] = { "no-cancel", "cancel-before-start", "cancel-while-running", "cancel-while-blocked" };
 #define LMAXU 16
 typedef struct {
@@ -2336,6 +2507,7 @@ static lu_t g_lu[LMAXU];
 static int g_nlu;
 static ABT_pool g_lpools[4];
 static int g_lsampler_stop;
+static int c_lcancel_pending_when_blocking;
 static int c_lepochs, c_lbehav[LB_NBEHAV], c_lcancel[4], c_lrevives, c_lsamples, c_lscen, c_ltask_epochs,
     c_lcancel_never_started, c_lcancel_one_grace;
 
@@ -2403,6 +2575,14 @@ static void life_fn(void *arg)
             ABT_thread_yield();
             life_slice(u);
             break;
+        case LB_SPIN_THEN_BLOCK:
+            /* no scheduling point until the cancellation request has been
+             * issued: the unit then blocks with the request pending */
+            while (!__atomic_load_n(&u->cancel_issued, __ATOMIC_SEQ_CST) && vrt_num_violations() == 0)
+                sched_yield();
+            ABT_eventual_wait(u->ev, NULL);
+            life_slice(u);
+            break;
     }
     __atomic_add_fetch(&u->ends, 1, __ATOMIC_SEQ_CST);
 }
@@ -2464,7 +2644,10 @@ static void life_epoch(vrt_rng *r, lu_t *u, int first)
             continue;
         if (u->behav == LB_UNTIL_CANCELLED && u->cancel_mode != LC_WHILE_RUNNING)
             continue;
-        if (u->cancel_mode == LC_WHILE_RUNNING && u->behav != LB_UNTIL_CANCELLED && u->behav != LB_YIELDS)
+        if (u->behav == LB_SPIN_THEN_BLOCK && u->cancel_mode != LC_WHILE_RUNNING)
+            continue;
+        if (u->cancel_mode == LC_WHILE_RUNNING && u->behav != LB_UNTIL_CANCELLED && u->behav != LB_YIELDS &&
+            u->behav != LB_SPIN_THEN_BLOCK)
             continue;
         if (u->cancel_mode == LC_WHILE_BLOCKED && u->behav != LB_BLOCK_THEN_RETURN)
             continue;
@@ -2475,10 +2658,10 @@ static void life_epoch(vrt_rng *r, lu_t *u, int first)
     u->starts = u->ends = u->after_exit = u->cancel_issued = u->slices_seeing_cancel = 0;
     u->wrong_arg = u->wrong_pool = 0;
     u->blocker_running = u->release = 0;
-    u->may_block = u->behav == LB_BLOCK_THEN_RETURN;
+    u->may_block = u->behav == LB_BLOCK_THEN_RETURN || u->behav == LB_SPIN_THEN_BLOCK;
     g_larg[u->id].u = u;
     g_larg[u->id].tag = u->tag;
-    if (u->behav == LB_BLOCK_THEN_RETURN)
+    if (u->may_block)
         VRT_ABT(ABT_eventual_create(0, &u->ev));
     ABT_thread blocker = ABT_THREAD_NULL;
     if (u->cancel_mode == LC_BEFORE_START) {
@@ -2523,13 +2706,28 @@ static void life_epoch(vrt_rng *r, lu_t *u, int first)
         VRT_ABT(ABT_thread_cancel(u->th));
         __atomic_store_n(&u->cancel_issued, 1, __ATOMIC_SEQ_CST);
     }
-    if (u->behav == LB_BLOCK_THEN_RETURN) {
+    if (u->behav == LB_SPIN_THEN_BLOCK) {
+        /* it blocks with the cancellation pending; wake it once it is blocked */
+        vrt_call_begin("wait for a unit with a pending cancellation to block");
+        for (;;) {
+            ABT_thread_state st;
+            VRT_ABT(ABT_thread_get_state(u->th, &st));
+            if (st == ABT_THREAD_STATE_BLOCKED || st == ABT_THREAD_STATE_TERMINATED)
+                break;
+            ABT_thread_yield();
+        }
+        vrt_call_end();
+        vrt_count(c_lcancel_pending_when_blocking, 1);
+    }
+    if (u->may_block) {
         if (vrt_range(r, 2))
             ABT_thread_yield();
         VRT_ABT(ABT_eventual_set(u->ev, NULL, 0));
     }
     /* the joiner is released in every case */
+    vrt_call_begin("join of a unit in the lifecycle epoch");
     VRT_ABT(u->is_task ? ABT_task_join(u->th) : ABT_thread_join(u->th));
+    vrt_call_end();
     ABT_thread_state st;
     VRT_ABT(ABT_thread_get_state(u->th, &st));
     VRT_CHECK(st == ABT_THREAD_STATE_TERMINATED, "life:state-after-join", "state %d after join", (int)st);
@@ -2553,7 +2751,7 @@ static void life_epoch(vrt_rng *r, lu_t *u, int first)
               u->behav == LB_SELF_EXIT ? "self" : "thread");
     VRT_CHECK(!u->wrong_arg, "life:wrong-argument", "unit %d ran with another epoch's argument (revive)", u->id);
     VRT_CHECK(!u->wrong_pool, "life:wrong-pool", "unit %d did not start from the requested pool %d", u->id, u->pool);
-    if (u->behav == LB_BLOCK_THEN_RETURN)
+    if (u->may_block)
         VRT_ABT(ABT_eventual_free(&u->ev));
     vrt_count(c_lepochs, 1);
     vrt_count(c_lbehav[u->behav], 1);
@@ -3203,6 +3401,15 @@ int main(int argc, char **argv)
         int n = (int)vrt_arg_int("scenarios", 40);
         for (int i = 0; i < n && vrt_num_violations() == 0; i++)
             run_block_scenario(&r, i, (int)vrt_arg_int("max-es", 4));
+    } else if (!strcmp(mode, "joinmix")) {
+        c_jmscen = vrt_counter("joinmix_scenarios");
+        c_jm_multi = vrt_counter("joinmix_multi_pool_joins");
+        c_jm_replace = vrt_counter("joinmix_joins_overlapping_sched_replacement");
+        c_jm_revive = vrt_counter("joinmix_revive_idle_work_join_rounds");
+        c_jm_units = vrt_counter("joinmix_units");
+        int n = (int)vrt_arg_int("scenarios", 60);
+        for (int i = 0; i < n && vrt_num_violations() == 0; i++)
+            run_joinmix(&r, i);
     } else if (!strcmp(mode, "blockmig")) {
         c_mbscen = vrt_counter("blockmig_scenarios");
         for (int i = 0; i < MB_NKINDS; i++) {
@@ -3242,6 +3449,7 @@ int main(int argc, char **argv)
             run_direct(&r, i, vrt_arg_int("ops", 3000));
     } else if (!strcmp(mode, "life")) {
         c_lepochs = vrt_counter("epochs");
+        c_lcancel_pending_when_blocking = vrt_counter("cancel_pending_when_unit_blocks");
         for (int i = 0; i < LB_NBEHAV; i++) {
             char nm[64];
             snprintf(nm, sizeof(nm), "behaviour_%s", lb_name[i]);
